@@ -249,6 +249,13 @@ func runC14(e *Env) {
 			vsys.HClose(t.lfd)
 		}
 	}
+	// a failed or timed-out dial leaves no descriptor behind (and every successful one was closed above)
+	for fd := range vsys.FDs {
+		if f := &vsys.FDs[fd]; f.Open && f.Owner == vsys.OwnNetpoll && f.Kind == "socket" {
+			e.Fail("no-descriptor-left", "descriptor-left", "socket descriptor %d opened by a dial is still open after every dial returned and every returned connection was closed (%d dials, %d of them failed)", fd, len(dials), failedDials(len(dials), func(i int) bool { return dials[i].err != nil }))
+			break
+		}
+	}
 	// no poller slot may stay allocated
 	for _, p := range pollmanager.polls {
 		dp := p.(*defaultPoll)
@@ -269,6 +276,15 @@ func runC14(e *Env) {
 		// reported last so that this recorded finding never hides another violation of the run
 		e.Fail("exactly-one-result", "typed-nil-connection-with-error", "%s", typedNil)
 	}
+}
+
+func failedDials(n int, failed func(int) bool) (k int) {
+	for i := 0; i < n; i++ {
+		if failed(i) {
+			k++
+		}
+	}
+	return k
 }
 
 func connOf(c Connection) *connection {
